@@ -565,25 +565,9 @@ var witnessesOutsideModel = map[string]bool{"union-name-collision": true}
 
 func Witnesses() []Witness {
 	pay := func(fs ...Fld) Meth { return Meth{Payload: &IO{Fields: fs}} }
-	t := UT{Name: "T", Fields: []Fld{{Name: "x", NoTag: true, T: P("Int")}, F(2, "y", P("Int")), F(2, "z", P("Int"))}}
 	return []Witness{
-		{"zero", one("witness:zero", pay(F(0, "x", P("Int")))), []string{"field-number-zero"}, false},
-		{"dup01", one("witness:dup01", pay(F(1, "x", P("Int")), FS("01", "y", P("Int")))), []string{"dup-number-noncanonical-tag"}, false},
-		{"oneof-sibling", one("witness:oneof-sibling", pay(F(1, "x", P("Int")), Fld{Name: "u", Alts: []Fld{F(1, "a", P("String")), F(2, "b", P("Int"))}})),
-			[]string{"dup-number-oneof-sibling"}, false},
-		{"reserved-range", one("witness:19000", pay(F(19000, "x", P("Int")), F(19999, "y", P("Int")))), []string{"field-number-reserved-range"}, false},
-		{"above-max", one("witness:536870912", pay(F(536870912, "x", P("Int")))), []string{"field-number-above-max"}, false},
 		{"snake-names", one("witness:snake-names", pay(F(1, "fooBar", P("Int")), F(2, "foo_bar", P("Int")))), []string{"dup-field-name-after-snake-case"}, false},
-		{"nonnumeric", one("witness:abc", pay(FS("abc", "x", P("Int")))), []string{"nonnumeric-tag-panic"}, true},
-		{"negative", one("witness:-1", pay(FS("-1", "x", P("Int")))), []string{"nonnumeric-tag-panic"}, true},
-		{"nested-unvalidated", one("witness:nested-unvalidated", pay(F(1, "t", U("T"))), t),
-			[]string{"untagged-attribute-emitted-as-zero", "dup-number-unvalidated-scope"}, false},
-		{"mapped-unvalidated", one("witness:mapped-unvalidated", Meth{Payload: &IO{Fields: []Fld{F(1, "k", P("String")), F(2, "y", P("Int")), F(2, "z", P("Int")),
-			{Name: "w", NoTag: true, T: P("Int")}}}, Metadata: []string{"k"}}),
-			[]string{"untagged-attribute-emitted-as-zero", "dup-number-unvalidated-scope"}, false},
 		{"digit-led-name", one("witness:digit-led-name", pay(F(1, "1abc", P("Int")))), []string{"field-name-not-identifier"}, false},
-		{"map-key", one("witness:map-key", pay(F(1, "mf", Map(P("Float64"), P("String"))), F(2, "mt", Map(U("T2"), P("String")))),
-			UT{Name: "T2", Fields: []Fld{F(1, "x", P("Int"))}}), []string{"map-key-type-invalid"}, false},
 		{"wrapper-name-collision", one("witness:wrapper-name-collision", pay(F(1, "a", Arr(Arr(P("UInt")))), F(2, "b", Arr(Arr(P("UInt32")))))),
 			[]string{"generator-panic/wrapper-name-collision"}, true},
 		{"attribute-named-field", one("witness:attribute-named-field", Meth{Result: &IO{Fields: []Fld{{Name: "choice", Alts: []Fld{F(3, "id", U("Point"))}}}}},
@@ -650,6 +634,10 @@ func insertSec(fs []Fld, kind string, pos int, tagged bool, tag int) []Fld {
 	return append(out, fs[pos:]...)
 }
 
+// rejectModel: the members of the defective message of a must-reject design, for the
+// model of goa's validation (nil: no model case).
+var rejectModel = map[string][]Fld{}
+
 // MustReject: designs whose tags goa's validation has to refuse (the only scope it
 // validates: an unmapped top-level payload / result). If one is accepted the oracle
 // runs on what is emitted for it.
@@ -677,6 +665,48 @@ func MustReject() []Witness {
 			}
 		}
 	}
+	// the designs of the repaired findings (field numbers validated as numbers, in every
+	// scope, union alternatives included; protobuf map key types): goa has to refuse them
+	// in the payload, the result, the streaming payload, a user type and next to a mapping
+	rej := func(name string, defect []Fld, types ...UT) {
+		rejectModel[name] = defect
+		plain := []Fld{F(41, "pa", P("String")), F(42, "pb", P("Int"))}
+		t := UT{Name: "Carrier", Fields: defect}
+		for _, v := range []struct {
+			scope string
+			m     Meth
+			ts    []UT
+		}{
+			{"payload", Meth{Payload: &IO{Fields: defect}}, nil},
+			{"result", Meth{Result: &IO{Fields: defect}}, nil},
+			{"streaming-payload", Meth{SPayload: &IO{Fields: defect}, Result: &IO{Fields: plain}}, nil},
+			{"streaming-result", Meth{Payload: &IO{Fields: plain}, SResult: &IO{Fields: defect}}, nil},
+			{"user-type", Meth{Payload: &IO{Fields: []Fld{F(1, "carrier", U("Carrier"))}}}, []UT{t}},
+			{"user-type-in-array-in-result", Meth{Result: &IO{Fields: []Fld{F(1, "carriers", Arr(U("Carrier")))}}}, []UT{t}},
+			{"next-to-metadata", Meth{Payload: &IO{Fields: append(append([]Fld{}, defect...), plain...)}, Metadata: []string{"pa"}}, nil},
+			{"next-to-headers", Meth{Result: &IO{Fields: append(append([]Fld{}, defect...), plain...)}, Headers: []string{"pa"}}, nil},
+			{"next-to-explicit-message", Meth{Payload: &IO{Fields: append(append([]Fld{}, defect...), plain...)}, ReqMsg: []MsgAttr{{Name: "pb", Meta: true}}}, nil},
+		} {
+			n := name + "-in-" + v.scope
+			rejectModel[n] = defect
+			sec = append(sec, Witness{Name: n, D: one("reject:"+n, v.m, append(v.ts, types...)...)})
+		}
+	}
+	rej("number-zero", []Fld{F(0, "x", P("Int"))})
+	rej("number-noncanonical-duplicate", []Fld{F(1, "x", P("Int")), FS("01", "y", P("Int"))})
+	rej("number-of-oneof-sibling", []Fld{F(1, "x", P("Int")), {Name: "u", Alts: []Fld{F(1, "a", P("String")), F(2, "b", P("Int"))}}})
+	rej("number-in-oneof-twice", []Fld{{Name: "u", Alts: []Fld{F(3, "a", P("String")), F(3, "b", P("Int"))}}})
+	rej("number-reserved-19000", []Fld{F(19000, "x", P("Int"))})
+	rej("number-reserved-19999", []Fld{F(7, "w", P("Int")), F(19999, "x", P("Int"))})
+	rej("number-above-max", []Fld{F(536870912, "x", P("Int"))})
+	rej("number-not-a-number", []Fld{FS("abc", "x", P("Int"))})
+	rej("number-negative", []Fld{FS("-1", "x", P("Int"))})
+	rej("number-missing", []Fld{F(2, "y", P("Int")), {Name: "x", NoTag: true, T: P("Int")}})
+	rej("number-twice", []Fld{F(2, "y", P("Int")), F(5, "w", P("String")), F(2, "z", P("Int"))})
+	rej("oneof-alternative-untagged", []Fld{{Name: "u", Alts: []Fld{{Name: "a", NoTag: true, T: P("String")}}}})
+	rej("map-key-float", []Fld{F(1, "mf", Map(P("Float64"), P("String")))})
+	rej("map-key-bytes", []Fld{F(1, "mb", Map(P("Bytes"), P("String")))})
+	rej("map-key-message", []Fld{F(1, "mt", Map(U("T2"), P("String")))}, UT{Name: "T2", Fields: []Fld{F(1, "x", P("Int"))}})
 	return append(sec, []Witness{
 		{Name: "dup-tag-payload", D: one("reject:dup-tag-payload", pay(F(1, "x", P("Int")), F(2, "y", P("String")), F(2, "z", P("Int"))))},
 		{Name: "dup-tag-result", D: one("reject:dup-tag-result", res(F(7, "x", P("Int")), F(7, "z", P("Int"))))},
